@@ -53,6 +53,36 @@ package scen
 // nobody), and - on the accelerated client - the validator as a
 // scheduler-owned seam, so that validations of concurrently received answers
 // complete in any order relative to each other and to further deliveries.
+//
+// Input drawn since wave 12: WHICH namespace the node's configuration gives to
+// the rank validator (c04Cfg.NS): one of the harness' own ("r", installed next
+// to the validators the library ships), or one for which the library ships a
+// validator itself ("pk", "ipns" - the NamespacedValidator option then replaces
+// the shipped one; the Validator option is not used and the protocol prefix is
+// not the public network's, the only setting in which the library lets an
+// application do that). "The configured validator" of the property is what the
+// application configured, for every namespace it configured; no rule is added,
+// the oracle's copy of the validator (c04NSVFor) simply follows the drawn
+// configuration, and every existing rule reads it:
+//   - yield-invalid / yield-invalid-local ("only yield values that the
+//     configured validator accepts for the requested key"): for half of the
+//     "pk" runs the requested key is a real /pk/<peer ID> key and responders
+//     (invalid sub-kind 4) and local storage (planted record) hold that
+//     peer's genuine public key - a value that the validator the library
+//     ships for the namespace accepts and the configured one refuses;
+//   - best-known / valid-value-lost / notfound-value ("the final value is
+//     ranked at least as good as every valid value supplied ..."): the values
+//     the configured validator accepts are values a shipped validator refuses.
+//   Both directions expose every regression in which a value search (or the
+//   store behind PutValue / the local read) judges records of a configured
+//   namespace with anything but the configured validator: defaults applied
+//   over the configuration, a validator looked up by a hard-wired namespace, a
+//   client variant (accelerated, dual) assembling its validator differently.
+//   Left out: GetPublicKey under a replaced "pk" validator (c04_pk.go keeps the
+//   shipped one): its ask-the-peer-itself path checks that the key hashes to
+//   the peer ID (the second clause of the property) and does not consult the
+//   validator; whether a replaced "pk" validator also binds that path is not
+//   decided by this scenario.
 
 import (
 	"bytes"
@@ -87,7 +117,8 @@ func init() {
 			"probe_found", "probe_notfound", "probe_stream_multi", "probe_search_ended_early", "probe_local_valid", "probe_local_expired", "probe_local_expired_midsearch", "probe_peer_serves_local_bytes_valid", "probe_peer_serves_local_bytes_expired_at_start", "probe_peer_serves_local_bytes_expired_midsearch", "probe_value_expired_midsearch", "probe_bestknown_checked",
 			"probe_opt_offline", "probe_opt_expired", "probe_opt_offline_local_not_valid", "probe_local_never_valid", "probe_local_outlived_max_age", "probe_stamp_valid_value_held_past_requesters_max_age", "probe_stamp_valid_value_from_the_future", "probe_stamp_valid_value_unparsable",
 			"probe_key_outside_namespaces", "probe_key_outside_record_acceptable_to_unregistered_validator", "probe_key_outside_local_record", "probe_key_registered_namespace_empty_rest_found",
-			"probe_no_starting_points", "probe_no_starting_points_local_valid"},
+			"probe_no_starting_points", "probe_no_starting_points_local_valid",
+			"probe_ns_configured_in_place_of_shipped_pk", "probe_ns_configured_in_place_of_shipped_ipns", "probe_ns_configured_in_place_of_shipped_local_record", "probe_ns_record_acceptable_to_shipped_validator_only", "probe_ns_local_record_acceptable_to_shipped_validator_only"},
 	})
 }
 
@@ -174,6 +205,22 @@ type c04Cfg struct {
 	// SlowVal: the client's validator is a scheduler-owned seam (accelerated
 	// client only, c04_wave6.go)
 	SlowVal bool
+	// NS: the namespace the node is CONFIGURED to validate with the rank
+	// validator ("" = "r"; "pk" / "ipns": the namespaces for which the library
+	// ships validators of its own - the configuration replaces them, wave 12)
+	NS string
+	// StockRec (NS == "pk", the requested key is a real /pk/<peer ID> key): a
+	// value that the validator the library ships for that namespace accepts
+	// for the requested key, and the configured validator refuses
+	StockRec []byte
+}
+
+// ns is the namespace under which the rank validator is configured.
+func (c c04Cfg) ns() string {
+	if c.NS == "" {
+		return "r"
+	}
+	return c.NS
 }
 
 // c04MaxAge is one choice of the requester's MaxRecordAge option.
@@ -319,13 +366,23 @@ func c04GenCfg(s *sim.Sim, variant string, lazy bool) c04Cfg {
 		c.Quorum = 0
 	}
 	n := s.Draw("key", 1<<12)
-	c.Key = fmt.Sprintf("/r/key-%d", n)
-	c.Other = fmt.Sprintf("/r/other-%d", n)
+	// the namespace the rank validator is configured for: one of the harness'
+	// own, or one for which the library ships a validator (see the header)
+	c.NS = []string{"r", "r", "pk", "ipns"}[s.Draw("validator-namespace", 4)]
+	c.Key = fmt.Sprintf("/%s/key-%d", c.NS, n)
+	c.Other = fmt.Sprintf("/%s/other-%d", c.NS, n)
 	if s.Chance("key-outside", 1, 5) {
 		// outside the configured validator's namespaces (or, one class, on the
 		// inner boundary); "other" stays a key of the registered namespace
 		c.KeyClass = 1 + s.Draw("key-class", c04KeyClasses-1)
-		c.Key = c04KeyOfClass(c.KeyClass, n)
+		c.Key = c04KeyOfClassNS(c.KeyClass, n, c.NS)
+	} else if c.NS == "pk" && s.Chance("real-pk-key", 1, 2) {
+		// a key of the shape applications use in that namespace: /pk/<peer ID>
+		// of an existing (RSA) identity, whose public key some responders serve
+		ks := c04Keys()
+		i := s.Draw("pk-identity", len(ks))
+		c.Key, c.Other = routing.KeyForPublicKey(ks[i].ID), routing.KeyForPublicKey(ks[(i+1)%len(ks)].ID)
+		c.StockRec = ks[i].Raw
 	}
 	if s.Chance("no-starting-points", 1, 10) {
 		c.NoPeers = 1
@@ -378,10 +435,11 @@ func c04GenCfg(s *sim.Sim, variant string, lazy bool) c04Cfg {
 }
 
 // c04Opts are the DHT options every variant shares: the rank validator under
-// namespace "r" (next to the default /pk one) and the drawn MaxRecordAge.
-func c04Opts(rv record.Validator, maxAge int) []dht.Option {
-	opts := []dht.Option{dht.NamespacedValidator("r", rv)}
-	if m := c04MaxAges[maxAge]; m.Set {
+// the drawn namespace ("r" next to the default ones, or in place of the
+// default "pk" / "ipns" one) and the drawn MaxRecordAge.
+func c04Opts(rv record.Validator, c c04Cfg) []dht.Option {
+	opts := []dht.Option{dht.NamespacedValidator(c.ns(), rv)}
+	if m := c04MaxAges[c.MaxAge]; m.Set {
 		opts = append(opts, dht.MaxRecordAge(m.D))
 	}
 	return opts
@@ -452,7 +510,7 @@ func c04PlantIn(d *simds.DS, key string, old []byte, mutate func(*recpb.Record))
 
 func c04BuildStandard(w *c04World) error {
 	d := simds.New(w.s, "ds")
-	h, err := newH1(w.s, w.u, w.cfg.K, w.cfg.Alpha, w.cfg.Beta, append(c04Opts(w.clientValidator(), w.cfg.MaxAge), dht.Datastore(d))...)
+	h, err := newH1(w.s, w.u, w.cfg.K, w.cfg.Alpha, w.cfg.Beta, append(c04Opts(w.clientValidator(), w.cfg), dht.Datastore(d))...)
 	if err != nil {
 		return err
 	}
@@ -522,7 +580,12 @@ func (w *c04World) genResponders(peers []*simnet.Peer, knowable []*simnet.Peer) 
 		case c04Invalid:
 			r.Sub = rng.Intn(4)
 			rank := rng.Intn(2 * c.Ranks)
+			if c.StockRec != nil && rng.Intn(2) == 0 {
+				r.Sub = 4
+			}
 			switch r.Sub {
+			case 4: // a value that ANOTHER validator for this namespace (the one the library ships) accepts for the requested key
+				r.Val = c.StockRec
 			case 0: // not a rank value at all
 				r.Val = []byte(fmt.Sprintf("garbage-%d", i))
 			case 1: // expired before the search started
@@ -735,6 +798,9 @@ func (w *c04World) answer(p *sim.Parked, rpc *simnet.RPC) {
 			s.Count("fault_rec_empty")
 		case !sup.ValidNow:
 			s.Count("fault_rec_invalid")
+			if w.cfg.StockRec != nil && bytes.Equal(rec.GetValue(), w.cfg.StockRec) {
+				s.Count("probe_ns_record_acceptable_to_shipped_validator_only")
+			}
 			if r.Kind == c04Valid {
 				s.Count("probe_value_expired_midsearch")
 			}
@@ -787,7 +853,7 @@ func (w *c04World) putLocal() {
 	}
 	w.localVal = rankValue(c.LocalRank, exp, c.Key)
 	val := w.localVal
-	if c04NSV(w.val).ValidatorByKey(c.Key) == nil {
+	if c04NSVFor(w.val, c.ns()).ValidatorByKey(c.Key) == nil {
 		// The key lies outside the client's namespaces: the client itself refuses
 		// to store anything for it. The record (one the rank validator would
 		// accept, were it registered for this key) is written by another value
@@ -813,6 +879,12 @@ func (w *c04World) putLocal() {
 	w.localStoredAt = s.Now()
 	if c.Local == 5 && w.localStored {
 		planted := c04PlantValue(c.LocalPlant, val, c.LocalRank, exp, c.Key, c.Other)
+		if c.LocalPlant == c04PlantGarbage && c.StockRec != nil {
+			// not any garbage: a value the validator the library ships for this
+			// namespace would accept for this key (the configured one does not)
+			planted = c.StockRec
+			s.Count("probe_ns_local_record_acceptable_to_shipped_validator_only")
+		}
 		w.localStored = w.sut.plant(c.Key, val, func(rec *recpb.Record) {
 			if c.LocalPlant == c04PlantMisKeyed {
 				rec.Key = []byte(c.Other)
@@ -889,7 +961,8 @@ func c04RunValue(s *sim.Sim, variant string, lazy bool) {
 		w.slow = &c04Slow{v: &c04SeamValidator{s: s, inner: w.val}}
 	}
 	// the oracle's validator: the configured one (namespaced), see c04NSV
-	w.validate, w.sel = c04NSValidate(w.val), c04NSSelect(w.val)
+	nsv := c04NSVFor(w.val, c.ns())
+	w.validate, w.sel = nsv.Validate, nsv.Select
 	w.u = simnet.NewUniverse(uint64(s.Draw("universe", 1<<16)), c.N)
 	var err error
 	switch variant {
@@ -962,6 +1035,11 @@ func c04RunValue(s *sim.Sim, variant string, lazy bool) {
 		s.Count("probe_key_outside_namespaces")
 		if w.localStored {
 			s.Count("probe_key_outside_local_record")
+		}
+	} else if c.ns() != "r" {
+		s.Count("probe_ns_configured_in_place_of_shipped_" + c.ns())
+		if w.localStored && !w.localPlanted {
+			s.Count("probe_ns_configured_in_place_of_shipped_local_record")
 		}
 	}
 	if w.lazy != nil && w.localStored && !w.localPlanted && w.validate(c.Key, w.localVal) == nil {
